@@ -5,19 +5,19 @@ From NT Require Import Sx Rose ListFacts RoseFacts Surgery SurgeryFacts Machine 
 Import ListNotations.
 
 (* ---- add_child(data) and everything that goes through it ---- *)
-Theorem WFw_op_add w ti p d explicit k b : WFw w -> WFw (snd (op_add w ti p d explicit k b)).
+Theorem WFx_op_add w ti p d explicit k b : WFw w -> WFx w (snd (op_add w ti p d explicit k b)).
 Proof.
   intros H. unfold op_add.
-  destruct (get_tree w ti) as [t|] eqn:Gt; [|exact H].
-  destruct (parent_path p (forest_of t)) as [pq|] eqn:Gp; [|exact H].
-  destruct (get_ch pq (forest_of t)) as [ch|] eqn:Gc; [|exact H].
-  destruct (negb (before_ok (norm_before b) ch)); [exact H|].
-  destruct (match explicit with Some e => Some e | None => calc_id (calc t) d end) as [id|]; [|now apply WFw_bump].
-  destruct (collides t p id) eqn:Col; [now apply WFw_bump|].
+  destruct (get_tree w ti) as [t|] eqn:Gt; [|exact (WFx_refl w H)].
+  destruct (parent_path p (forest_of t)) as [pq|] eqn:Gp; [|exact (WFx_refl w H)].
+  destruct (get_ch pq (forest_of t)) as [ch|] eqn:Gc; [|exact (WFx_refl w H)].
+  destruct (negb (before_ok (norm_before b) ch)); [exact (WFx_refl w H)|].
+  destruct (match explicit with Some e => Some e | None => calc_id (calc t) d end) as [id|]; [|now apply WFx_bump].
+  destruct (collides t p id) eqn:Col; [now apply WFx_bump|].
   cbn [snd]. unfold put_tree. cbn [bump trees next].
   assert (Wt := WFw_tree w ti t H Gt).
   set (x := T (next w) (mk_info d id (default_kind t k) []) []).
-  apply (WFw_put w ti t); try assumption; [|lia|].
+  apply (WFx_put w ti t); try assumption; [|lia|].
   - apply (WF_insert t pq ch (norm_before b) x Wt Gc).
     + cbn. constructor; [intros []|constructor].
     + intros m [<-|[]]. cbn [rid]. split; [destruct H; lia|]. intros X. apply (WFw_tree_lt w ti t _ H Gt) in X. lia.
@@ -29,18 +29,39 @@ Proof.
     rewrite map_app, rows_ids, rows_t_ids in Hm. apply in_app_or in Hm. destruct Hm as [[<-|[]]|Hm]; [right; cbn [rid]; lia|now left].
 Qed.
 
-Theorem WFw_op_shortcut w ti n how d explicit k : WFw w -> WFw (snd (op_shortcut w ti n how d explicit k)).
+Theorem WFw_op_add w ti p d explicit k b : WFw w -> WFw (snd (op_add w ti p d explicit k b)).
+Proof. intros H0. exact (proj1 (WFx_op_add w ti p d explicit k b H0)). Qed.
+
+
+Theorem WFx_op_shortcut w ti n how d explicit k : WFw w -> WFx w (snd (op_shortcut w ti n how d explicit k)).
 Proof.
-  intros H. unfold op_shortcut. destruct (get_tree w ti) as [t|]; [|exact H].
+  intros H. unfold op_shortcut. destruct (get_tree w ti) as [t|]; [|exact (WFx_refl w H)].
   destruct how.
-  - now apply WFw_op_add.
-  - destruct (children_of n (forest_of t)) as [[|c l]|]; [now apply WFw_op_add|now apply WFw_op_add|exact H].
-  - destruct (parent_of n (forest_of t)); [|exact H]. destruct (get_node n (forest_of t)); [|exact H]. now apply WFw_op_add.
-  - destruct (parent_of n (forest_of t)); [|exact H]. destruct (node_loc n (forest_of t)) as [[[q0 i] l]|]; [|exact H].
-    destruct (get_node n (forest_of t)); [|exact H]. now apply WFw_op_add.
+  - now apply WFx_op_add.
+  - destruct (children_of n (forest_of t)) as [[|c l]|]; [now apply WFx_op_add|now apply WFx_op_add|exact (WFx_refl w H)].
+  - destruct (parent_of n (forest_of t)); [|exact (WFx_refl w H)]. destruct (get_node n (forest_of t)); [|exact (WFx_refl w H)]. now apply WFx_op_add.
+  - destruct (parent_of n (forest_of t)); [|exact (WFx_refl w H)]. destruct (node_loc n (forest_of t)) as [[[q0 i] l]|]; [|exact (WFx_refl w H)].
+    destruct (get_node n (forest_of t)); [|exact (WFx_refl w H)]. now apply WFx_op_add.
 Qed.
 
+Theorem WFw_op_shortcut w ti n how d explicit k : WFw w -> WFw (snd (op_shortcut w ti n how d explicit k)).
+Proof. intros H0. exact (proj1 (WFx_op_shortcut w ti n how d explicit k H0)). Qed.
+
+
 (* ---- removal ---- *)
+(* per-victim form of the keep_children check (a child's data_id among the other siblings); the
+   machine validates with [keep_collides_all]; this local copy keeps the proofs independent of the
+   unused [Machine.keep_collides] *)
+Definition keep_collides (t : tstate) (n : nat) : bool :=
+  match node_loc n (forest_of t) with
+  | Some (_, i, l) =>
+      match nth_error l i with
+      | Some s => existsb (fun c => existsb (fun o => negb (Nat.eqb (rid o) n) && did_eqb (rdid o) (rdid c)) l) (rch s)
+      | None => false
+      end
+  | None => false
+  end.
+
 Lemma detach_spec n f s f1 : detach n f = Some (s, f1) ->
   exists q0 a b, get_ch q0 f = Some (a ++ s :: b) /\ f1 = upd_ch q0 (fun _ => a ++ b) f /\ rid s = n /\ In s (pre_f f).
 Proof.
@@ -168,37 +189,45 @@ Proof.
 Qed.
 
 (* remove(), except the combination keep_children + with_clones *)
-Theorem WFw_op_remove w ti n keep wc : WFw w -> keep && wc = false -> WFw (snd (op_remove w ti n keep wc)).
+Theorem WFx_op_remove w ti n keep wc : WFw w -> keep && wc = false -> WFx w (snd (op_remove w ti n keep wc)).
 Proof.
-  intros H Hk. unfold op_remove. destruct (get_tree w ti) as [t|] eqn:Gt; [|exact H].
-  destruct (did_of n (forest_of t)) as [d|]; [|exact H].
+  intros H Hk. unfold op_remove. destruct (get_tree w ti) as [t|] eqn:Gt; [|exact (WFx_refl w H)].
+  destruct (did_of n (forest_of t)) as [d|]; [|exact (WFx_refl w H)].
   assert (Wt := WFw_tree w ti t H Gt).
-  match goal with |- context [if ?c then (Err EUnique, w) else _] => destruct c eqn:Col end; [exact H|].
+  match goal with |- context [if ?c then (Err EUnique, w) else _] => destruct c eqn:Col end; [exact (WFx_refl w H)|].
   cbn [snd]. unfold put_tree. destruct keep.
   - cbn [andb] in Hk. subst wc. cbn [andb] in Col. cbn [existsb] in Col. rewrite orb_false_r in Col.
     apply keep_all_single in Col; [|apply Wt].
     cbn [fold_left]. destruct (live t n).
     + cbn [remove_one]. destruct (remove_keep t n) as [a|] eqn:E.
-      * destruct (WF_remove_keep t n a Wt Col E) as (Wa & P). apply (WFw_put w ti t); auto.
+      * destruct (WF_remove_keep t n a Wt Col E) as (Wa & P). apply (WFx_put w ti t); auto.
         intros m Hm. left. apply (Permutation_in _ (Permutation_sym P)). now right.
-      * apply (WFw_put w ti t); auto.
-    + apply (WFw_put w ti t); auto.
+      * apply (WFx_put w ti t); auto.
+    + apply (WFx_put w ti t); auto.
   - match goal with |- context [fold_left ?f ?vs t] => destruct (remove_fold_branch vs t Wt) as (W' & I') end.
-    apply (WFw_put w ti t); auto.
+    apply (WFx_put w ti t); auto.
 Qed.
 
-Theorem WFw_op_remove_children w ti n : WFw w -> WFw (snd (op_remove_children w ti n)).
+Theorem WFw_op_remove w ti n keep wc : WFw w -> keep && wc = false -> WFw (snd (op_remove w ti n keep wc)).
+Proof. intros H0 H1. exact (proj1 (WFx_op_remove w ti n keep wc H0 H1)). Qed.
+
+
+Theorem WFx_op_remove_children w ti n : WFw w -> WFx w (snd (op_remove_children w ti n)).
 Proof.
-  intros H. unfold op_remove_children. destruct (get_tree w ti) as [t|] eqn:Gt; [|exact H].
-  destruct (parent_path n (forest_of t)) as [pq|]; [|exact H].
-  destruct (get_ch pq (forest_of t)) as [ch|] eqn:G; [|exact H].
+  intros H. unfold op_remove_children. destruct (get_tree w ti) as [t|] eqn:Gt; [|exact (WFx_refl w H)].
+  destruct (parent_path n (forest_of t)) as [pq|]; [|exact (WFx_refl w H)].
+  destruct (get_ch pq (forest_of t)) as [ch|] eqn:G; [|exact (WFx_refl w H)].
   rewrite unregister_all_eq. cbn [snd]. unfold put_tree.
   assert (Wt := WFw_tree w ti t H Gt).
   assert (G' : get_ch pq (forest_of t) = Some ([] ++ ch ++ [])) by (now rewrite app_nil_r).
   destruct (WF_cut t pq [] ch [] Wt G') as (W1 & W2). cbn [app] in W1, W2.
-  apply (WFw_put w ti t); auto.
+  apply (WFx_put w ti t); auto.
   intros m Hm. left. apply (Permutation_in _ (Permutation_sym W2)). apply in_or_app. now right.
 Qed.
+
+Theorem WFw_op_remove_children w ti n : WFw w -> WFw (snd (op_remove_children w ti n)).
+Proof. intros H0. exact (proj1 (WFx_op_remove_children w ti n H0)). Qed.
+
 
 (* ---- move_to ---- *)
 Lemma WF_move_in t n target nb t' s tch cur :
@@ -249,33 +278,41 @@ Proof.
     congruence.
 Qed.
 
-Theorem WFw_op_move w ti n tti target b : WFw w -> WFw (snd (op_move w ti n tti target b)).
+Theorem WFx_op_move w ti n tti target b : WFw w -> WFx w (snd (op_move w ti n tti target b)).
 Proof.
-  intros H. unfold op_move. destruct (get_tree w ti) as [t|] eqn:Gt; [|exact H].
-  destruct (typed t); [exact H|]. destruct (negb (Nat.eqb ti tti)); [exact H|].
-  destruct (get_node n (forest_of t)) as [s|] eqn:Gn; [|exact H].
-  destruct (children_of target (forest_of t)) as [tch|] eqn:Gc; [|exact H].
-  destruct (parent_of n (forest_of t)) as [cur|] eqn:Gp; [|exact H].
-  destruct (is_desc_or_self n target (forest_of t)); [exact H|].
-  destruct (negb (before_ok (norm_before b) tch)); [exact H|].
-  match goal with |- context [if ?c then (Err EUnique, w) else _] => destruct c eqn:U end; [exact H|].
-  match goal with |- context [if ?c then (Ok [], w) else _] => destruct c end; [exact H|].
-  destruct (move_in t n target (norm_before b)) as [t'|] eqn:M; [|exact H].
+  intros H. unfold op_move. destruct (get_tree w ti) as [t|] eqn:Gt; [|exact (WFx_refl w H)].
+  destruct (typed t); [exact (WFx_refl w H)|]. destruct (negb (Nat.eqb ti tti)); [exact (WFx_refl w H)|].
+  destruct (get_node n (forest_of t)) as [s|] eqn:Gn; [|exact (WFx_refl w H)].
+  destruct (children_of target (forest_of t)) as [tch|] eqn:Gc; [|exact (WFx_refl w H)].
+  destruct (parent_of n (forest_of t)) as [cur|] eqn:Gp; [|exact (WFx_refl w H)].
+  destruct (is_desc_or_self n target (forest_of t)); [exact (WFx_refl w H)|].
+  destruct (negb (before_ok (norm_before b) tch)); [exact (WFx_refl w H)|].
+  match goal with |- context [if ?c then (Err EUnique, w) else _] => destruct c eqn:U end; [exact (WFx_refl w H)|].
+  match goal with |- context [if ?c then (Ok [], w) else _] => destruct c end; [exact (WFx_refl w H)|].
+  destruct (move_in t n target (norm_before b)) as [t'|] eqn:M; [|exact (WFx_refl w H)].
   cbn [snd]. unfold put_tree. assert (Wt := WFw_tree w ti t H Gt).
   destruct (WF_move_in t n target _ t' s tch cur Wt M Gn Gc Gp U) as (W' & P).
-  apply (WFw_put w ti t); auto. intros m Hm. left. now apply (Permutation_in _ (Permutation_sym P)).
+  apply (WFx_put w ti t); auto. intros m Hm. left. now apply (Permutation_in _ (Permutation_sym P)).
 Qed.
 
+Theorem WFw_op_move w ti n tti target b : WFw w -> WFw (snd (op_move w ti n tti target b)).
+Proof. intros H0. exact (proj1 (WFx_op_move w ti n tti target b H0)). Qed.
+
+
 (* ---- metadata ---- *)
-Theorem WFw_op_meta w ti n o : WFw w -> WFw (snd (op_meta w ti n o)).
+Theorem WFx_op_meta w ti n o : WFw w -> WFx w (snd (op_meta w ti n o)).
 Proof.
-  intros H. unfold op_meta. destruct (get_tree w ti) as [t|] eqn:Gt; [|exact H].
-  destruct (live t n); [|exact H]. cbn [snd]. unfold put_tree. assert (Wt := WFw_tree w ti t H Gt).
+  intros H. unfold op_meta. destruct (get_tree w ti) as [t|] eqn:Gt; [|exact (WFx_refl w H)].
+  destruct (live t n); [|exact (WFx_refl w H)]. cbn [snd]. unfold put_tree. assert (Wt := WFw_tree w ti t H Gt).
   destruct (node_loc n (forest_of t)) as [[[q0 i] l]|] eqn:E.
   - destruct (set_info_at_spec n (fun i0 => set_meta_i (apply_meta o (i_meta i0)) i0) _ q0 i l E) as (a & s & b & -> & _ & R & G & ->).
     rewrite <- R. destruct (WF_relabel_same t q0 a s b (set_meta_i (apply_meta o (i_meta (rinfo s))) (rinfo s)) Wt G eq_refl) as (W' & Ei).
-    apply (WFw_put w ti t); [exact H|exact Gt|exact W'|lia|].
+    apply (WFx_put w ti t); [exact H|exact Gt|exact W'|lia|].
     intros m Hm. left. cbn [forest_of set_forest] in Hm. now rewrite Ei in Hm.
   - rewrite set_info_at_none by assumption. replace (set_forest t (forest_of t)) with t by (now destruct t).
-    apply (WFw_put w ti t); auto.
+    apply (WFx_put w ti t); auto.
 Qed.
+
+Theorem WFw_op_meta w ti n o : WFw w -> WFw (snd (op_meta w ti n o)).
+Proof. intros H0. exact (proj1 (WFx_op_meta w ti n o H0)). Qed.
+
